@@ -228,6 +228,16 @@ Theorem head_stream_v0_refuted : exists r cs n,
                  rs_body w1 = [] /\ rs_body w2 = []).
 Proof. exact head_stream_v0_refuted_lemma. Qed.
 
+(** Why the head is sent with [end_of_stream = false] also when [Response::body] is empty: with [true] an HTTP/2 client would
+    get an empty body for a streamed response (h2 refuses every later write) while the HTTP/1.1 client gets the stream. *)
+Theorem head_end_of_stream_refuted : exists v st h cs,
+  concat cs <> [] /\
+  receive H1 M_GET (pipe_send H1 true v st (ensure_length H1 (N.of_nat (length (concat cs))) h) None cs)
+    = WResp (mkResp v st (h1_connection (ensure_length H1 (N.of_nat (length (concat cs))) h)) (concat cs)) /\
+  receive H2 M_GET (pipe_send H2 true v st h None cs) = WResp (mkResp v st (h2_strip h) []) /\
+  receive H2 M_GET (pipe_send H2 false v st h None cs) = WResp (mkResp v st (h2_strip h) (concat cs)).
+Proof. exact head_end_of_stream_refuted_lemma. Qed.
+
 (** [handle_connection]'s own answers (429 of the request limiter, 409 without a host): for every page and method both
     protocols deliver it, equal up to [normalise], without a body for HEAD. *)
 Theorem limiter_answer_parity : forall m r,
